@@ -343,18 +343,25 @@ def _bisect_on(e, lst, attr):
 def ordering(rep, idx):
     rm = idx.find_class("_RangeMap")
     items = rm.method("items")
-    fors = [n for n in ast.walk(items.node) if isinstance(n, ast.For)]
-    ok = len(fors) == 1 and ast.unparse(fors[0].iter) == "self._keys"
-    rep.check(ok, "C02.7", items.site, "_RangeMap.items() iterates the sorted key list", f"iterates {[ast.unparse(f.iter) for f in fors]}")
+    ci = get_fn(idx, items)
+    loops = list(ci.t.loops.values())
+    ok = len(loops) == 1 and ci.norm(loops[0].iter) == ci.parse("self._keys") and not loops[0].reversed
+    rep.check(ok, "C02.7", items.site, "_RangeMap.items() iterates the sorted key list", f"iterates {[ir.show(ci.norm(l.iter)) for l in loops]}")
+    src_items = ir.parse("self._ranges.items()")
     for name in ("resources", "windows", "all_resources"):
         fi = idx.find_func(f"MemoryMap.{name}")
-        fors = [n for n in ast.walk(fi.node) if isinstance(n, ast.For)]
-        src = [ast.unparse(f.iter) for f in fors]
-        ok = any("self._ranges.items()" in s and "sorted" not in s and "reversed" not in s for s in src)
-        if name == "window_patterns":
-            continue
-        rep.check(ok, "C02.7", fi.site, f"{name}() draws from self._ranges.items() (ascending address order)", f"iterates {src}")
-    wp = idx.find_func("MemoryMap.window_patterns")
-    fors = [n for n in ast.walk(wp.node) if isinstance(n, ast.For)]
-    rep.check(any(ast.unparse(f.iter) == "self.windows()" for f in fors), "C02.7", wp.site, "window_patterns() follows windows()",
-              f"iterates {[ast.unparse(f.iter) for f in fors]}", nontrivial=False)
+        c = get_fn(idx, fi, no_inline=("_translate",))
+        outer = [L for L in c.t.loops.values() if ir.mentions(c.norm(L.iter), src_items)]
+        bad_wrap = any(x[0] == 'call' and x[1] in (('name', 'sorted'), ('name', 'reversed'), ('name', 'set')) for L in outer for x in ir.walk(c.norm(L.iter)))
+        ok = len(outer) == 1 and not outer[0].reversed and not bad_wrap
+        if not outer:
+            # a different source altogether (e.g. the insertion-ordered tables) loses the address order
+            rep.bad("C02.7", fi.site, f"{name}() draws from self._ranges.items() (ascending address order)",
+                    f"iterates {[ir.show(c.norm(L.iter))[:60] for L in c.t.loops.values()]}")
+        else:
+            rep.check(ok, "C02.7", fi.site, f"{name}() draws from self._ranges.items() (ascending address order)",
+                      f"iterates {[ir.show(c.norm(L.iter))[:60] for L in outer]}")
+    wp = get_fn(idx, "MemoryMap.window_patterns")
+    ok = any(wp.norm(L.iter) == wp.parse("self.windows()") for L in wp.t.loops.values())
+    rep.check(ok, "C02.7", wp.fi.site, "window_patterns() follows windows()", f"iterates {[ir.show(wp.norm(L.iter)) for L in wp.t.loops.values()]}",
+              nontrivial=False)
